@@ -362,6 +362,100 @@ func schedChild(args []string) int {
 				}
 			}
 		}
+	case "http":
+		// request handlers of one server running concurrently with each other and with a
+		// main-script task; requests carry brand-new JSON keys, header names and query names
+		it := harness.NewInterp()
+		h, err := newHTTPHandler(it)
+		if err != nil {
+			fmt.Fprintln(os.Stderr, "INFRA:", err)
+			return 2
+		}
+		it.Global.InjectIO(strings.NewReader(""), io.Discard)
+		k := 2 + t.Intn(4)
+		nreq := 1 + t.Intn(4)
+		reqs := make([][]httpReq, k)
+		got := make([][]string, k)
+		for i := 0; i < k; i++ {
+			for j := 0; j < nreq; j++ {
+				u := fmt.Sprintf("r%d_t%d_%d", *run, i, j)
+				if t.Chance(1, 3) {
+					u = fmt.Sprintf("r%d_shared_%d", *run, t.Intn(2)) // the same new names in several tasks
+				}
+				var rq httpReq
+				switch t.Pick(3, 3, 2, 1) {
+				case 0:
+					rq = httpReq{Method: "POST", Target: "/hdr", Body: fmt.Sprintf(`{"x-a-%s": "v", "x-b-%s": "w"}`, u, u)}
+				case 1:
+					rq = httpReq{Method: "GET", Target: fmt.Sprintf("/users/%s?q%s=1&p%s=2", u, u, u)}
+				case 2:
+					rq = httpReq{Method: "GET", Target: "/env"}
+				default:
+					rq = httpReq{Method: "GET", Target: "/hello?name=" + u}
+				}
+				reqs[i] = append(reqs[i], rq)
+				res.Programs = append(res.Programs, rq.Method+" "+rq.Target+" "+rq.Body)
+			}
+			got[i] = make([]string, len(reqs[i]))
+		}
+		mainProgs := taskProgram(t, fmt.Sprintf("r%d_main", *run), fmt.Sprintf("r%d_shared", *run), 1+t.Intn(3))
+		mainRes := make([]string, len(mainProgs))
+		evalOne := func(src string) (out string) {
+			defer func() {
+				if r := recover(); r != nil {
+					out = fmt.Sprint("PANIC ", r)
+				}
+			}()
+			prog, err := harness.Parse(src)
+			if err != nil {
+				return "PARSE " + err.Error()
+			}
+			o := evaluator.Eval(prog, object.NewEnclosedEnv(it.Global))
+			if e, ok := o.(*object.PanErr); ok {
+				return "ERR " + e.Inspect()
+			}
+			return o.Inspect()
+		}
+		var wg sync.WaitGroup
+		seam.Begin(cfg)
+		for i := 0; i < k; i++ {
+			i := i
+			wg.Add(1)
+			seam.Go("worker.httptask", func() {
+				defer wg.Done()
+				for j, rq := range reqs[i] {
+					got[i][j] = serveOnce(h, rq)
+				}
+			})
+		}
+		wg.Add(1)
+		seam.Go("worker.mainscript", func() {
+			defer wg.Done()
+			for j, src := range mainProgs {
+				mainRes[j] = evalOne(src)
+			}
+		})
+		seam.Join()
+		wg.Wait()
+		seam.End()
+		for i := range reqs {
+			for j, rq := range reqs[i] {
+				if strings.HasPrefix(got[i][j], "HOST PANIC") {
+					res.Panics = append(res.Panics, fmt.Sprintf("request %s %s: %s", rq.Method, rq.Target, got[i][j]))
+				}
+				if solo := serveOnce(h, rq); solo != got[i][j] {
+					res.Isolation = append(res.Isolation, fmt.Sprintf("request %s %s %s: concurrent=%s alone=%s", rq.Method, rq.Target, rq.Body, got[i][j], solo))
+				}
+			}
+		}
+		for j, src := range mainProgs {
+			if strings.HasPrefix(mainRes[j], "PANIC") {
+				res.Panics = append(res.Panics, "main script: "+mainRes[j])
+			}
+			if solo := evalOne(src); solo != mainRes[j] {
+				res.Isolation = append(res.Isolation, fmt.Sprintf("main script %q: concurrent=%s alone=%s", src, mainRes[j], solo))
+			}
+		}
 	default:
 		fmt.Fprintln(os.Stderr, "INFRA: unknown mode")
 		return 2
